@@ -1,6 +1,7 @@
 package main
 
 import (
+	"sort"
 	"fmt"
 	"go/types"
 	"strings"
@@ -18,6 +19,7 @@ const pkgReclaimable = "pkg/scheduler/plugins/proportion/reclaimable"
 const pkgStrategies = "pkg/scheduler/plugins/proportion/reclaimable/strategies"
 
 func runC07(c *Ctx) {
+	runC07Kinds(c)
 	p, fx := c.P, c.Fx
 	// ---- O1
 	recl := c.Anchor("O1", pkgReclaimable, "Reclaimable", "Reclaimable")
@@ -219,6 +221,30 @@ func runC07(c *Ctx) {
 		}
 		sat := p.Func(pkgReclaimable, "Reclaimable", "isFairShareSaturationLowerPerResource")
 		c.Check(len(p.deepFind(bounds, isCallToFn(sat), 2)) > 0, "O4", "MPT", funcKey(bounds)+": saturation compared with siblings", bounds.Pos(), "present", "the boundary walk no longer compares saturation with the sibling queues")
+		// what is compared is the reclaiming queue's share AFTER the reclaim: on every path of an ancestor iteration the
+		// reclaimer's request is added to the share that the saturation test receives (whether that share was taken
+		// from the remaining-share table or from the queue's current allocation)
+		for _, in := range instrsIn(bounds, isCallToFn(sat)) {
+			args := in.(ssa.CallInstruction).Common().Args
+			if len(args) < 3 {
+				continue
+			}
+			R := args[2]
+			isAddOfRequest := func(x ssa.Instruction) bool {
+				cc, ok := x.(ssa.CallInstruction)
+				if !ok || calleeOf(cc) == nil || calleeOf(cc).Name() != "Add" || len(cc.Common().Args) != 2 {
+					return false
+				}
+				return cc.Common().Args[0] == R && strings.Contains(termOf(cc.Common().Args[1]).String(), "RequiredResources")
+			}
+			var starts []cfgPos
+			for _, e := range loopBodyEntries(walks[0].Header) {
+				starts = append(starts, cfgPos{B: e, I: 0})
+			}
+			_, path, found := reachAvoiding(starts, func(x ssa.Instruction) bool { return x == in }, isAddOfRequest, nil)
+			c.Check(len(starts) > 0 && !found, "O4", "MPT", funcKey(bounds)+": the reclaimer's request is added to the share whose saturation is compared", instrPos(in), "Add(requested) on every path of the ancestor iteration",
+				"an ancestor's saturation can be compared with its siblings without the reclaimer's request having been added to its share ("+pathStr(path)+"): when a victim of the same ancestor already put it into the remaining-share table the ancestor looks less saturated than it will be and the boundary is not enforced")
+		}
 	}
 
 	// ---- O5 (edge case): a zero fair share with something allocated is infinitely saturated, never "not saturated"
@@ -366,4 +392,109 @@ func constFloat(k *ssa.Const) float64 {
 	}
 	f, _ := constantFloat(k)
 	return f
+}
+
+// C07-O7 (SIBLING): resource kinds agree. The proportion plugin speaks about resources through three parallel
+// vocabularies — the ResourceName constants (CPU / Memory / GPU), the accessors of resource_info.Resource (Cpu(),
+// Memory(), GPUs()) and the per-resource fields of the share structs. Wherever one statement ties a ResourceName
+// constant to an accessor or field (a map entry whose key is the constant, guarded by or computed from an accessor; a
+// switch arm on the constant that returns a field) the two are of the same kind. A slip (Memory() > 0 recorded as
+// CPU) removes a resource from the saturation comparison or charges it to the wrong quota.
+func runC07Kinds(c *Ctx) {
+	p, fx := c.P, c.Fx
+	kindOf := func(name string) string {
+		n := strings.ToLower(name)
+		switch {
+		case strings.Contains(n, "cpu"):
+			return "cpu"
+		case strings.Contains(n, "mem"):
+			return "memory"
+		case strings.Contains(n, "gpu"):
+			return "gpu"
+		}
+		return ""
+	}
+	isResName := func(t types.Type) bool { return strings.HasSuffix(typeKey(t), "resource_share.ResourceName") }
+	constKind := func(v ssa.Value) string {
+		k, ok := v.(*ssa.Const)
+		if !ok || k.Value == nil || !isResName(k.Type()) {
+			return ""
+		}
+		return kindOf(k.Value.ExactString())
+	}
+	// kinds mentioned by accessor calls / field selections in a term
+	termKinds := func(t *Term) map[string]string {
+		out := map[string]string{}
+		t.contains(func(x *Term) bool {
+			switch x.Op {
+			case "call":
+				if x.Fn != nil && (strings.HasSuffix(funcPkgPath(x.Fn), "/resource_info") || strings.HasSuffix(funcPkgPath(x.Fn), "/resource_share")) {
+					if k := kindOf(x.Fn.Name()); k != "" && len(x.Fn.Name()) <= 8 {
+						out[k] = x.Fn.Name() + "()"
+					}
+				}
+			case "field":
+				if k := kindOf(x.Name); k != "" && len(x.Name) <= 6 {
+					out[k] = "." + x.Name
+				}
+			}
+			return false
+		})
+		return out
+	}
+	n := 0
+	for _, fn := range p.FuncsIn("pkg/scheduler/plugins/proportion") {
+		if isTestdataOrMock(fn) {
+			continue
+		}
+		for _, b := range fn.Blocks {
+			for _, in := range b.Instrs {
+				var key string
+				var val *Term
+				switch x := in.(type) {
+				case *ssa.MapUpdate:
+					key = constKind(x.Key)
+					val = termOf(x.Value)
+				case *ssa.Return:
+					if len(x.Results) != 1 {
+						continue
+					}
+					val = termOf(x.Results[0])
+				default:
+					continue
+				}
+				kinds := termKinds(val)
+				for _, f := range fx.FactsAt(in).sorted() {
+					if f.T.Op == "bin" && len(f.T.Args) == 2 {
+						// guard "x == CONST" on a ResourceName selects the arm; guard on an accessor names a kind
+						for ai, a := range f.T.Args {
+							if a.Op == "const" && a.V != nil && isResName(a.V.Type()) && f.Pol && f.T.Name == "==" && key == "" {
+								key = kindOf(a.String())
+							}
+							_ = ai
+						}
+						if f.Pol {
+							for k, w := range termKinds(f.T) {
+								kinds[k] = w
+							}
+						}
+					}
+				}
+				if key == "" || len(kinds) == 0 {
+					continue
+				}
+				n++
+				var bad []string
+				for k, w := range kinds {
+					if k != key {
+						bad = append(bad, w)
+					}
+				}
+				sort.Strings(bad)
+				c.Check(len(bad) == 0, "O7", "SIBLING", fmt.Sprintf("%s: the %s entry is tied to %s values only", funcKey(fn), key, key), instrPos(in), "kinds agree",
+					fmt.Sprintf("the %s resource name is tied to %s: that resource is recorded, compared or charged under the wrong name (e.g. memory never enters the set of resources whose saturation is compared)", key, strings.Join(bad, ", ")))
+			}
+		}
+	}
+	c.Floor("O7", "SIBLING resource-kind ties", n, 3)
 }
